@@ -511,13 +511,19 @@ class Tables:
         for g in S.iteration:
             rc = [e for e in g.events if e.kind in ('recv', 'recv_timeout', 'try_recv')]
             # leaving from inside the body (break / return after looking at the mailbox)
+            def cases_of(r_):
+                ok, kind, err = r_.ret
+                if r_.kind == 'recv':
+                    return [(k, z3.And(ok, kind == k)) for k in self.kinds] + [('disconnected', z3.Not(ok))]
+                return [(k, z3.And(ok, kind == k)) for k in self.kinds] + [('timeout', z3.And(z3.Not(ok), err == 0)), ('disconnected', z3.And(z3.Not(ok), err == 1))]
             for a in g.alts:
-                if a.kind == 'return' and len(rc) == 1:
-                    ok, kind, err = rc[0].ret
-                    cases = [(k, z3.And(ok, kind == k)) for k in self.kinds] + ([('timeout', z3.And(z3.Not(ok), err == 0)), ('disconnected', z3.And(z3.Not(ok), err == 1))] if rc[0].kind != 'recv' else [('disconnected', z3.Not(ok))])
-                    for key, c in cases:
-                        if self.sat(side, keep, a.guard, c):
-                            on.setdefault(key, set()).add('exit')
+                # an iteration may look at the mailbox more than once (a nested receive): a message is then taken by whichever
+                # receive is waiting when it arrives, so the reaction to a message kind is the union over the receive sites
+                if a.kind == 'return' and len(rc) >= 1:
+                    for r_ in rc:
+                        for key, c in cases_of(r_):
+                            if self.sat(side, keep, a.guard, c):
+                                on.setdefault(key, set()).add('exit')
             for e in g.events:
                 if e.kind in ('recv', 'recv_timeout'):
                     blocking.add((e.kind, str(z3.simplify(e.args[0].f[0])) if e.kind == 'recv_timeout' and isinstance(e.args[0], Struct) else None))
@@ -532,6 +538,14 @@ class Tables:
                 if a.kind != 'stop':
                     continue
                 nk = a.locals.get(l) if l is not None else z3.BoolVal(True)
+                if len(rc) > 1:
+                    for r_ in rc:
+                        for key, c in cases_of(r_):
+                            for res, cond in (('continue', nk), ('exit', z3.Not(nk))):
+                                if self.sat(side, keep, a.guard, c, cond):
+                                    on.setdefault(key, set()).add(res)
+                    self.nested_receives = getattr(self, 'nested_receives', 0) + 1
+                    continue
                 if len(rc) != 1:
                     # an iteration that does not look at the mailbox: continues or leaves independently of it
                     for key in ['any']:
@@ -893,16 +907,23 @@ def closure_facts(M):
 SITES = {('poller', 'start'): 1, ('poller', 'loop'): 2, ('writer', 'start'): 3, ('writer', 'loop'): 4}
 
 
-def native_fault(rp, who, where, nth, panic, watchdog_ms=10000, notify_delay_ms=0):
+def native_fault(rp, who, where, nth, panic, watchdog_ms=10000, notify_delay_ms=0, chrony_answers=0):
+    """chrony_answers > 0: a stand-in chronyd answers that many tracking requests and then disappears (a chronyd restart): the polls
+    after that are missed polls inside the grace period"""
     site = SITES[(who, where)]
-    out = rp.ask('threads %d %d %d %d %d' % (site, nth, 1 if panic else 2, watchdog_ms, notify_delay_ms))
+    cmd = 'threads %d %d %d %d %d %d' % (site, nth, 1 if panic else 2, watchdog_ms, notify_delay_ms, chrony_answers)
+    out = rp.ask(cmd)
     hung = out.startswith('ok hung')
     m = re.search(r'returned_ms=(\d+)', out)
-    return {'cmd': 'threads %d %d %d %d %d' % (site, nth, 1 if panic else 2, watchdog_ms, notify_delay_ms), 'out': out, 'hung': hung, 'returned_ms': int(m.group(1)) if m else None, 'ok': out.startswith('ok')}
+    return {'cmd': cmd, 'out': out, 'hung': hung, 'returned_ms': int(m.group(1)) if m else None, 'ok': out.startswith('ok')}
 
 
 # (who, where, visit, panic?, ms the dying thread is held between its notice and the closing of its mailbox)
-STANDING = (('poller', 'loop', 1, True, 0), ('writer', 'loop', 1, False, 0), ('writer', 'start', 1, True, 0), ('poller', 'start', 1, False, 0), ('poller', 'loop', 1, True, 1200), ('writer', 'start', 1, True, 1200))
+# last column: tracking requests a stand-in chronyd answers before it disappears (0: no chronyd at all, every poll is a missed poll
+# outside the grace period; n: n regular updates, then missed polls INSIDE the grace period)
+STANDING = (('poller', 'loop', 1, True, 0, 0), ('writer', 'loop', 1, False, 0, 0), ('writer', 'start', 1, True, 0, 0), ('poller', 'start', 1, False, 0, 0), ('poller', 'loop', 1, True, 1200, 0),
+            ('writer', 'start', 1, True, 1200, 0), ('poller', 'loop', 3, True, 0, 1), ('writer', 'loop', 3, False, 0, 2))
+STANDING_THOROUGH = (('poller', 'loop', 2, False, 0, 0), ('writer', 'loop', 2, True, 0, 0), ('poller', 'loop', 4, False, 0, 2), ('poller', 'loop', 2, True, 0, 3), ('writer', 'loop', 4, True, 0, 1))
 
 
 def native_only(ck, why, tier):
@@ -910,15 +931,15 @@ def native_only(ck, why, tier):
     each standing fault; a hang is a violation, no hang leaves the check inconclusive (never green)"""
     rp = common.Replay('debug')
     runs = []
-    for who, where, nth, panic, delay in STANDING + ((('poller', 'loop', 2, False, 0), ('writer', 'loop', 2, True, 0)) if tier == 'thorough' else ()):
+    for who, where, nth, panic, delay, answers in STANDING + (STANDING_THOROUGH if tier == 'thorough' else ()):
         for attempt in range(2):
-            nat = native_fault(rp, who, where, nth, panic, 10000, delay)
+            nat = native_fault(rp, who, where, nth, panic, 10000, delay, answers)
             runs.append(nat)
             if nat['hung']:
                 break
         if nat['hung']:
             ck.violation('daemon-lingers', 'the %s thread %s (%s, visit %d%s): the real thread_manager::run had not returned 10000 ms later - the daemon lingers with part of its pipeline dead (the step relations of this tree are outside the encodable fragment: %s)'
-                         % (who, 'panics' if panic else 'returns', 'at start-up' if where == 'start' else 'at the top of its loop', nth, (', held %d ms before its mailbox closes' % delay) if delay else '', why[:160]), {'cmd': nat['cmd'], 'native': nat['out']})
+                         % (who, 'panics' if panic else 'returns', 'at start-up' if where == 'start' else 'at the top of its loop', nth, ((', held %d ms before its mailbox closes' % delay) if delay else '') + ((', chronyd answered %d polls and then went away' % answers) if answers else ''), why[:160]), {'cmd': nat['cmd'], 'native': nat['out']})
             break
     rp.close()
     ck.cov['native_runs'] = [{'cmd': n['cmd'], 'returned_ms': n['returned_ms'], 'hung': n['hung']} for n in runs]
@@ -1028,30 +1049,32 @@ def run_check(tier, seed):
         who = info['fault_who']; panic = info['fault_panic']
         iters = len([x for x in info['trace'][:info['fault_step']] if x['who'] == who])
         tried = []
-        for where, nth in ((('start', 1),) if iters == 0 else ()) + (('loop', max(1, iters)), ('loop', 1), ('loop', 2)):
-            if (where, nth) in tried:
+        # the model's messages are kinds, not contents: which kind the poller's last report had (a regular update, a missed poll inside
+        # or outside the grace period) is chosen natively through the stand-in chronyd (it answers 0, 1 or 2 polls, then goes away)
+        for where, nth, answers in ((('start', 1, 0),) if iters == 0 else ()) + (('loop', max(1, iters), 0), ('loop', 1, 0), ('loop', 2, 0), ('loop', 3, 1), ('loop', 2, 1), ('loop', 3, 2), ('loop', 4, 2)):
+            if (where, nth, answers) in tried:
                 continue
-            tried.append((where, nth))
-            for attempt in range(4):        # the channel map iterates in a random order and the notification races with the drop of the mailbox
-                nat = native_fault(rp, who, where, nth, panic, DEADLINE_MS)
+            tried.append((where, nth, answers))
+            for attempt in range(4 if not answers else 2):        # the channel map iterates in a random order and the notification races with the drop of the mailbox
+                nat = native_fault(rp, who, where, nth, panic, DEADLINE_MS, 0, answers)
                 native_runs.append(nat)
                 if nat['hung']:
                     break
             if nat['hung']:
-                ck.violation('daemon-lingers', 'the %s thread %s (%s, visit %d): the real thread_manager::run had not returned %d ms later - the daemon lingers with part of its pipeline dead; failing pieces: %s'
-                             % (who, 'panics' if panic else 'returns', 'at start-up' if where == 'start' else 'at the top of its loop', nth, DEADLINE_MS, '; '.join(diag[:3]) or 'none'),
+                ck.violation('daemon-lingers', 'the %s thread %s (%s, visit %d%s): the real thread_manager::run had not returned %d ms later - the daemon lingers with part of its pipeline dead; failing pieces: %s'
+                             % (who, 'panics' if panic else 'returns', 'at start-up' if where == 'start' else 'at the top of its loop', nth, (', chronyd answered %d polls and then went away' % answers) if answers else '', DEADLINE_MS, '; '.join(diag[:3]) or 'none'),
                              {'cmd': nat['cmd'], 'native': nat['out'], 'model': {k: v for k, v in info.items() if k != 'trace'}, 'trace': info['trace']})
                 break
         else:
             ck.inconclusive.append('the composition has a counterexample (%s %s at step %d) that did not reproduce natively: %s' % (who, 'panics' if panic else 'returns', info['fault_step'], [n['out'][:80] for n in native_runs]))
     # ---- standing native runs (also when the model is green): real threads, real channels, real unwinding
     if not ck.violations:
-        for who, where, nth, panic, delay in STANDING + ((('poller', 'loop', 2, False, 0), ('writer', 'loop', 2, True, 0)) if tier == 'thorough' else ()):
-            nat = native_fault(rp, who, where, nth, panic, DEADLINE_MS, delay)
+        for who, where, nth, panic, delay, answers in STANDING + (STANDING_THOROUGH if tier == 'thorough' else ()):
+            nat = native_fault(rp, who, where, nth, panic, DEADLINE_MS, delay, answers)
             native_runs.append(nat)
             if nat['hung']:
                 ck.violation('daemon-lingers', 'the %s thread %s (%s, visit %d%s): the real thread_manager::run had not returned %d ms later (the bounded model had no counterexample: a mechanism outside it)'
-                             % (who, 'panics' if panic else 'returns', 'at start-up' if where == 'start' else 'at the top of its loop', nth, (', held %d ms before its mailbox closes' % delay) if delay else '', DEADLINE_MS), {'cmd': nat['cmd'], 'native': nat['out']})
+                             % (who, 'panics' if panic else 'returns', 'at start-up' if where == 'start' else 'at the top of its loop', nth, ((', held %d ms before its mailbox closes' % delay) if delay else '') + ((', chronyd answered %d polls and then went away' % answers) if answers else ''), DEADLINE_MS), {'cmd': nat['cmd'], 'native': nat['out']})
                 break
             if not nat['ok']:
                 ck.inconclusive.append('native thread run failed: ' + nat['out'][:100])
